@@ -7,6 +7,7 @@ import SqiModel.Fp2V
 import SqiGen.Tables1
 import SqiGen.Tables3
 import SqiGen.Tables5
+import SqiGen.BasisGuard
 
 namespace SqiModel.BasisConcrete
 open SqiModel.Basis SqiModel.Fp2V
@@ -55,7 +56,9 @@ def search (p nwords : Nat) (tabRaw ztabRaw : List F2) (A C : F2) (forceP forceQ
     mulAlpha := fun z => f2mul p z alpha
     tab := decodeTab p nwords tabRaw
     ztab := decodeTab p nwords ztabRaw
-    junk := (0, 0) }
+    junk := (0, 0)
+    guardP := SqiGen.BasisGuard.holds SqiGen.BasisGuard.notAboveFromHint
+    guardQ := SqiGen.BasisGuard.holds SqiGen.BasisGuard.aboveFromHint }
 
 def searchL (lvl : Nat) (A C : F2) (forceP forceQ : Nat) : Option (Search Nat) :=
   match lvl with
